@@ -223,7 +223,7 @@ func runImpl(q *wreq) (res string) {
 }
 
 func worker() error {
-	debug.SetMaxStack(48 << 20) // a runaway recursion dies quickly instead of eating 1 GB first
+	debug.SetMaxStack(16 << 20) // a runaway recursion dies quickly instead of eating 1 GB first
 	in := bufio.NewReaderSize(os.Stdin, 1<<20)
 	out := bufio.NewWriter(os.Stdout)
 	for {
@@ -289,7 +289,7 @@ func (p *pool) stop() {
 }
 
 // Run executes one program on the implementation.  "err:crash" = the worker died with a Go fatal
-// error (stack overflow); "err:timeout" = no answer within 30 s; "err:died" = any other death.
+// error (stack overflow); "err:timeout" = no answer within 180 s; "err:died" = any other death.
 func (p *pool) Run(pr *Prog) (string, error) {
 	if p.cmd == nil {
 		if err := p.start(); err != nil {
@@ -328,7 +328,7 @@ func (p *pool) Run(pr *Prog) (string, error) {
 			return "err:died", nil
 		}
 		return strings.TrimRight(a.s, "\n"), nil
-	case <-time.After(30 * time.Second):
+	case <-time.After(180 * time.Second):
 		p.stop()
 		p.Deaths++
 		return "err:timeout", nil
